@@ -822,8 +822,16 @@ func forIterableRuleSSA(r *Run) {
 					if ta, ok := x.Tuple.(*ssa.TypeAssert); ok && x.Index == 1 {
 						src := p.resolve(ta.X)
 						if src == iter {
-							// no class here implements anything
-							if d.truth {
+							// no class here implements anything; the int IS an int (and satisfies the empty interface)
+							want := false
+							if !c.isNil {
+								if it, isIface := ta.AssertedType.Underlying().(*types.Interface); isIface {
+									want = it.NumMethods() == 0
+								} else {
+									want = c.kind == kInt && types.Identical(ta.AssertedType, types.Typ[types.Int])
+								}
+							}
+							if d.truth != want {
 								consistent = false
 							}
 						} else if !d.truth {
